@@ -98,3 +98,20 @@ fn k_float_fold_steps() {
     assert!(mn.to_bits() == if a < b { a.to_bits() } else { b.to_bits() });
     assert!(mx.to_bits() == if a > b { a.to_bits() } else { b.to_bits() });
 }
+
+/// f64::INFINITY / f64::NEG_INFINITY (ax_inf_not_nan, ax_inf_extreme): extreme elements of the order on non-NaN values
+#[kani::proof]
+fn k_float_infinities() {
+    let a = any_f64();
+    assert!(!f64::INFINITY.is_nan() && !f64::NEG_INFINITY.is_nan() && f64::NEG_INFINITY < f64::INFINITY);
+    if !a.is_nan() {
+        assert!(a < f64::INFINITY || a.to_bits() == f64::INFINITY.to_bits());
+        assert!(f64::NEG_INFINITY < a || a.to_bits() == f64::NEG_INFINITY.to_bits());
+    }
+    if a == f64::INFINITY {
+        assert!(a.to_bits() == f64::INFINITY.to_bits());
+    }
+    if a == f64::NEG_INFINITY {
+        assert!(a.to_bits() == f64::NEG_INFINITY.to_bits());
+    }
+}
